@@ -23,9 +23,9 @@ type afCtx struct {
 	root      *frame
 	baseField string
 
-	statErrs  map[ssa.Value]bool // error results of Stat(final path) in the root frame
-	writeOf   map[afCall]fval    // write call -> temp file it writes the bytes to
-	steps     []afCall           // registry of step calls (index = id in the automaton state)
+	statErrs  map[ssa.Value]*frame // error results of Stat(final path) -> frame of the call
+	writeOf   map[afCall]fval      // write call -> temp file it writes the bytes to
+	steps     []afCall             // registry of step calls (index = id in the automaton state)
 	stepID    map[afCall]int
 	relevant  map[*frame]bool // frames that contain a step or touch a temp file
 	escapes   bool
@@ -50,7 +50,7 @@ type afCall struct {
 
 type afOutcome struct {
 	aux string
-	err tri
+	res string // per result position: '0' unknown, '1' nil/false, '2' non-nil/true
 }
 
 func (a *afCtx) isName(v ssa.Value, fr *frame) bool  { return isRootParam(v, fr, 2) }
@@ -260,7 +260,7 @@ func (a *afCtx) addStep(k afCall) {
 // calls.
 func (a *afCtx) check() {
 	c, P := a.c, a.c.P
-	a.statErrs = map[ssa.Value]bool{}
+	a.statErrs = map[ssa.Value]*frame{}
 	a.writeOf = map[afCall]fval{}
 	a.stepID = map[afCall]int{}
 	a.relevant = map[*frame]bool{}
@@ -309,9 +309,12 @@ func (a *afCtx) check() {
 			}
 			return
 		case "os.Stat", "os.Lstat":
-			if fr == a.root && a.isFinal(args[0], fr) {
+			if a.isFinal(args[0], fr) {
 				if e, _ := errorValue(call); e != nil {
-					a.statErrs[e] = true
+					a.statErrs[e] = fr
+					if fr != a.root {
+						a.markRelevant(fr) // an "exists" helper: inlined, its outcome carries the exists flag
+					}
 				}
 			}
 			return
@@ -443,21 +446,28 @@ func (a *afCtx) check() {
 // pending: comma-separated ids (into a.steps) of write/sync/close calls (or of
 // helper calls standing for them) that have executed on this path and whose
 // error is not yet known to be nil.
-func afEnc(stage int, file string, last int, pend []int) string {
+func afEnc(stage int, file string, last int, pend []int, exists bool) string {
+	if stage == 0 && file == "" && last < 0 && len(pend) == 0 && !exists {
+		return ""
+	}
 	ps := make([]string, len(pend))
 	for i, p := range pend {
 		ps[i] = fmt.Sprint(p)
 	}
-	return fmt.Sprintf("%d|%s|%d|%s", stage, file, last, strings.Join(ps, ","))
+	e := ""
+	if exists {
+		e = "E" // a Stat of the final path returned a nil error on this path
+	}
+	return fmt.Sprintf("%d|%s|%d|%s|%s", stage, file, last, strings.Join(ps, ","), e)
 }
 
-func afDec(aux string) (stage int, file string, last int, pend []int) {
+func afDec(aux string) (stage int, file string, last int, pend []int, exists bool) {
 	last = -1
 	if aux == "" {
 		return
 	}
-	p := strings.SplitN(aux, "|", 4)
-	if len(p) == 4 {
+	p := strings.SplitN(aux, "|", 5)
+	if len(p) == 5 {
 		fmt.Sscanf(p[0], "%d", &stage)
 		file = p[1]
 		fmt.Sscanf(p[2], "%d", &last)
@@ -468,6 +478,7 @@ func afDec(aux string) (stage int, file string, last int, pend []int) {
 				pend = append(pend, n)
 			}
 		}
+		exists = p[4] == "E"
 	}
 	return
 }
@@ -517,7 +528,7 @@ func (a *afCtx) step(st *pstate, call *ssa.Call, fr *frame) {
 	if !isStep {
 		return
 	}
-	stage, cur, last, pend := afDec(st.aux)
+	stage, cur, last, pend, exf := afDec(st.aux)
 	args := call.Call.Args
 	// RENAMEGUARD: the rename must be unreachable unless write, sync and close have all run and succeeded
 	if a.publishes(call, fr) {
@@ -540,23 +551,23 @@ func (a *afCtx) step(st *pstate, call *ssa.Call, fr *frame) {
 	switch staticID(call) {
 	case "os.CreateTemp", "io/ioutil.TempFile":
 		if ex := extractOf(call, 0); ex != nil {
-			st.aux = afEnc(1, fileID(fval{ex, fr}), sid, nil)
+			st.aux = afEnc(1, fileID(fval{ex, fr}), sid, nil, exf)
 		}
 	case "(*os.File).Write", "io.Copy":
 		if f, ok := a.writeOf[key]; ok && stage >= 1 && fileID(f) == cur {
-			st.aux = afEnc(2, cur, sid, addPend(pend, sid)) // (a write after Sync needs a new Sync)
+			st.aux = afEnc(2, cur, sid, addPend(pend, sid), exf) // (a write after Sync needs a new Sync)
 		}
 	case "(*os.File).Sync":
 		if f, ok := a.tempOf(args[0], fr); ok && stage == 2 && fileID(f) == cur {
-			st.aux = afEnc(3, cur, sid, addPend(pend, sid))
+			st.aux = afEnc(3, cur, sid, addPend(pend, sid), exf)
 		}
 	case "(*os.File).Close":
 		if f, ok := a.tempOf(args[0], fr); ok && stage == 3 && fileID(f) == cur {
-			st.aux = afEnc(4, cur, sid, addPend(pend, sid))
+			st.aux = afEnc(4, cur, sid, addPend(pend, sid), exf)
 		}
 	case "os.Rename":
 		if f, ok := a.tempNameOf(args[0], fr); ok && stage == 4 && fileID(f) == cur && a.isFinal(args[1], fr) {
-			st.aux = afEnc(5, cur, sid, pend)
+			st.aux = afEnc(5, cur, sid, pend, exf)
 		}
 	}
 	_ = last
@@ -572,18 +583,28 @@ func (a *afCtx) inline(k *frame, aux string) []afOutcome {
 	a.memo[mk] = []afOutcome{} // cut (mutual) recursion
 	var outs []afOutcome
 	seen := map[afOutcome]bool{}
-	ei := ir.ErrorResultIndex(k.fn.Signature)
 	w := a.walker(k)
 	w.initAux = aux
 	w.onReturn = func(st *pstate, r *ssa.Return) {
-		stage, cur, last, pend := afDec(st.aux)
-		o := afOutcome{aux: afEnc(stage, cur, last, a.confirm(st, k, pend))}
-		if st.aux == "" {
-			o.aux = ""
+		stage, cur, last, pend, exf := afDec(st.aux)
+		for e, efr := range a.statErrs {
+			if efr == k && nilness(st, e) == triNo {
+				exf = true
+			}
 		}
-		if ei >= 0 && ei < len(r.Results) {
-			o.err = nilness(st, r.Results[ei])
+		o := afOutcome{aux: afEnc(stage, cur, last, a.confirm(st, k, pend), exf)}
+		res := make([]byte, len(r.Results))
+		for i, v := range r.Results {
+			t := triUnknown
+			switch {
+			case isBoolType(v.Type()):
+				t = evalCond(st, v)
+			case ir.IsErrorType(v.Type()):
+				t = nilness(st, v)
+			}
+			res[i] = byte('0' + int(t))
 		}
+		o.res = string(res)
 		if !seen[o] {
 			seen[o] = true
 			outs = append(outs, o)
@@ -613,8 +634,8 @@ func (a *afCtx) walker(fr *frame) *pwalker {
 		// descending: the helper cannot see this frame's error values
 		in := st.aux
 		if in != "" {
-			stage, cur, last, pend := afDec(in)
-			in = afEnc(stage, cur, last, a.confirm(st, fr, pend))
+			stage, cur, last, pend, exf := afDec(in)
+			in = afEnc(stage, cur, last, a.confirm(st, fr, pend), exf)
 		}
 		// the helper call stands for the steps still pending inside it
 		self := -1
@@ -633,7 +654,7 @@ func (a *afCtx) walker(fr *frame) *pwalker {
 			s := st.clone()
 			s.aux = o.aux
 			if o.aux != "" {
-				stage, cur, last, pend := afDec(o.aux)
+				stage, cur, last, pend, exf := afDec(o.aux)
 				var np []int
 				for _, id := range pend {
 					inside := false
@@ -648,10 +669,22 @@ func (a *afCtx) walker(fr *frame) *pwalker {
 						np = addPend(np, id)
 					}
 				}
-				s.aux = afEnc(stage, cur, last, np)
+				s.aux = afEnc(stage, cur, last, np, exf)
 			}
-			if o.err != triUnknown {
-				s.facts[call] = o.err // for a tuple the walker hands it to the error Extract
+			// what the helper returned on this outcome (nil-ness of errors, value of booleans)
+			ts := make([]tri, len(o.res))
+			for i := range o.res {
+				ts[i] = tri(o.res[i] - '0')
+			}
+			if len(ts) == 1 {
+				if ts[0] != triUnknown {
+					s.facts[call] = ts[0]
+				}
+			} else if len(ts) > 1 {
+				if s.tup == nil {
+					s.tup = map[*ssa.Call][]tri{}
+				}
+				s.tup[call] = ts
 			}
 			outs = append(outs, s)
 		}
@@ -691,13 +724,16 @@ func (a *afCtx) sequence() {
 		if rv := st.deref(r.Results[ei]); !ir.IsNilConst(rv) && nilness(st, rv) == triUnknown {
 			st.facts[rv] = triNo // st is not used after a return
 		}
-		for e := range a.statErrs {
-			if nilness(st, e) == triNo {
-				rr.shortcut = true
-				return
+		stage, _, last, _, exf := afDec(st.aux)
+		for e, efr := range a.statErrs {
+			if efr == a.root && nilness(st, e) == triNo {
+				exf = true
 			}
 		}
-		stage, _, last, _ := afDec(st.aux)
+		if exf {
+			rr.shortcut = true
+			return
+		}
 		if stage == 5 {
 			rr.complete = true
 			return
